@@ -58,7 +58,7 @@ def describe(lines, upto):
 def run(ck):
     ck.rule = ("one evaluation = one recorded call history of one direction of a real bufconn pipe (seeded scenario: capacity 1..64, "
                "write chunking, read sizes, yields, close of either end by the worker or a third goroutine, read/write deadlines, "
-               "sequential non-blocking walks) validated by TLC against the byte-stream rules; non-trivial = histories of a direction "
+               "sequential non-blocking walks, one directed schedule per 100: deadline cleared while its fired timer waits for the pipe mutex) validated by TLC against the byte-stream rules; non-trivial = histories of a direction "
                "that carried data or had a call interrupted, distinct by (capacity, call sequence with outcomes)")
     thorough = ck.thorough
     # ---------------------------------------------------------------- (A) the transcribed design, exhaustively
@@ -92,28 +92,38 @@ def run(ck):
     recs = [x for x in recs if "events" in x]
     if not recs:
         raise vf.Infra("driver produced no scenarios")
-    trace, meta, starts = [], {}, {}
+    meta = {}
     h = 0
     for rec in recs:
         for d, lines in histories(rec).items():
             h += 1
             meta[h] = dict(scn=rec["scn"], run=rec["run"], fam=rec["fam"], cap=rec["cap"], dir=d, lines=lines,
                            active=bool(rec["dirs"][d - 1]), progress=rec["progress"])
-            starts[h] = len(trace) + 1          # 1-based index of the begin line
-            trace.append(dict(t="begin", h=h, g=0, k="", n=0, d=[], e="", rd=[], cap=rec["cap"]))
-            for x in lines:
+
+    def trace_text(hs):
+        trace, starts = [], {}
+        blank = dict(g=0, k="", n=0, d=[], e="", rd=[])
+        for hh in hs:
+            m = meta[hh]
+            starts[hh] = len(trace) + 1          # 1-based index of the begin line
+            trace.append(dict(blank, t="begin", h=hh, cap=m["cap"]))
+            for x in m["lines"]:
                 y = {k: x[k] for k in ("t", "g", "k", "n", "d", "e", "rd")}
-                y["h"], y["cap"] = h, rec["cap"]
+                y["h"], y["cap"] = hh, m["cap"]
                 trace.append(y)
-            trace.append(dict(t="end", h=h, g=0, k="", n=0, d=[], e="", rd=[], cap=rec["cap"]))
-    text = "\n".join(json.dumps(x) for x in trace) + "\n"
+            trace.append(dict(blank, t="end", h=hh, cap=m["cap"]))
+        return "\n".join(json.dumps(x) for x in trace) + "\n", starts
+
+    text, _ = trace_text(sorted(meta))
     tr = ck.tlc("Trace_BufPipe", "Trace_BufPipe.cfg", files={"trace.ndjson": text}, timeout=1200)
     accepted = {x["h"] for x in tr.printed if x.get("t") == "accept"}
     rejected = sorted(set(meta) - accepted)
-    high = {}
+    high, starts = {}, {}
     if rejected:
-        tv = ck.tlc("Trace_BufPipe", "Trace_BufPipe.cfg", files={"trace.ndjson": text}, count=False, timeout=1200,
-                    constants={"Only": "{%s}" % ", ".join(map(str, rejected[:200])), "Verbose": "TRUE"})
+        # localise: only the rejected histories, every consumed line reported
+        text2, starts = trace_text(rejected[:200])
+        tv = ck.tlc("Trace_BufPipe", "Trace_BufPipe.cfg", files={"trace.ndjson": text2}, count=False, timeout=1200,
+                    constants={"Verbose": "TRUE"}, workers=2)
         for x in tv.printed:
             if x.get("t") == "at":
                 high[x["h"]] = max(high.get(x["h"], 0), x["l"])
@@ -127,7 +137,7 @@ def run(ck):
             m = meta[hh]
             ck.sample({"scenario": m["scn"], "family": m["fam"], "cap": m["cap"], "dir": m["dir"], "accepted": hh in accepted,
                        "calls": [[x["g"], x["k"], x["n"], x["e"], len(x["rd"])] for x in m["lines"] if x["t"] == "inv"][:40]})
-    for hh in rejected:
+    for hh in rejected[:200]:
         m = meta[hh]
         lines = m["lines"]
         # high = the last trace line (1-based) some linearization consumed; lines[0] is trace line starts+1
@@ -144,6 +154,8 @@ def run(ck):
         elif bad["t"] == "ret":
             c = pend.get(bad["g"], {"k": bad["k"], "e": "?", "n": 0, "rd": [], "d": []})
             sig = "C39:%s/%s:%s" % (c["k"], c["e"], st)
+            if c["e"] == "timeout" and not flags["rdl" if c["k"] == "read" else "wdl"]:
+                sig = "C39:timeout-without-deadline:%s" % c["k"]
             what = ("%s(n=%d) returned class %s data=%s which no linearization of the history allows (ends/deadlines before it: %s)"
                     % (c["k"], c["n"], c["e"], c.get("rd") or c.get("d"), st))
         else:
@@ -152,6 +164,10 @@ def run(ck):
         what += "; scenario=%d family=%s cap=%d dir=%d seed=%d line=%d/%d" % (m["scn"], m["fam"], m["cap"], m["dir"], ck.seed, idx + 1, len(lines))
         ck.violation(sig, what, {"scn": m["scn"], "dir": m["dir"], "cap": m["cap"], "family": m["fam"], "seed": ck.seed,
                                  "unmatched_line": idx, "history": [[x["t"], x["g"], x["k"], x["n"], x["d"], x["e"], x["rd"]] for x in lines]})
+    unstaged = [x["scn"] for x in recs if x["fam"] == "staletimer" and not x.get("staged")]
+    if unstaged:
+        ck.notes.append("directed stale-timer schedule could not be staged in scenarios %s (the clearing call and the timer function were "
+                        "not both seen parked at the pipe mutex)" % unstaged)
     if aborted:
         ck.notes.append("driver stopped early after 3 runs without progress (each costs the 2.5 s quiet period)")
         if not rejected:
